@@ -7639,6 +7639,7 @@ func (bexp *InListExp) reduceSelectors(row *Row, implicitTable string) ValueExp 
 
 	return &InListExp{
 		val:    bexp.val.reduceSelectors(row, implicitTable),
+		notIn:  bexp.notIn, // NOT IN must stay NOT IN in join conditions and correlated subqueries
 		values: values,
 	}
 }
